@@ -10,6 +10,12 @@ CLAIMED = {
             'call it, which the fixed test scenarios cannot give.',
             'Trusts clang 14 AST/CFG and the real build flags; loops are unrolled once; pthread symbol interposition (link time) is not analysed.',
             'DESIGN.md §3 C04'),
+    'C43': ('table extraction and agreement: per Transition::Type, Channel::pack<T> sequence of the writer paths vs Channel::unpack<T> sequence of the reader constructor (clang AST/CFG)',
+            'For each of the ~30 transition types, every path of the observer serialize() that can pack it (helpers inlined, loops unrolled identically on both sides, '
+            'paths specialised by the type value) yields a field sequence; it must equal, in length, order, size and kind, the unpack sequence of the constructor that '
+            'deserialize_transition selects for that type. Covers all observer/transition classes at once, including those no test exercises under the model checker.',
+            'Type constants reaching an observer are those passed literally to its constructor in units that name the observer class; signedness differences are notes only.',
+            'DESIGN.md §3 C43'),
 }
 
 NOT_APPLICABLE = {
